@@ -318,6 +318,12 @@ def chunk_variants(chunk, acc):
                 acc.states += 1
                 check_sentence(acc, cp, [("b", f[1], f[2], variant, f[4], body)], "variant")
         check_sentence(acc, cp, [("b", f[1], f[2], None, f[4], [mk(RP.PRODUCTIONS[f[4]][0])]), ("b", f[1], f[2], '"v1"', f[4], [mk(RP.PRODUCTIONS[f[4]][0], ('"other"',))])], "variant-rep")
+        # a variant block FOLLOWED by other statements (another block, a global option, a data transform): their paths
+        # are not affected by the variant in front of them
+        after = [("b", "stage", "stage", None, "stage", [mk(RP.PRODUCTIONS["stage"][0])]), ("s", "option", ("set", "jitter"), ('"7"',))]
+        for variant in ('"v1"', '"default"', '"Alt"'):
+            check_sentence(acc, cp, [("b", f[1], f[2], variant, f[4], [mk(RP.PRODUCTIONS[f[4]][0])])] + after, "variant-then-more")
+            check_sentence(acc, cp, [("b", f[1], f[2], variant, f[4], [])] + after[::-1] + [("b", f[1], f[2], None, f[4], [mk(RP.PRODUCTIONS[f[4]][0], ('"z"',))])], "variant-then-more")
         # the real default block next to a variant whose name differs from "default" in capitalisation only
         check_sentence(acc, cp, [("b", f[1], f[2], '"default"', f[4], [mk(RP.PRODUCTIONS[f[4]][0])]), ("b", f[1], f[2], '"Default"', f[4], [mk(RP.PRODUCTIONS[f[4]][0], ('"other"',))])], "variant-case")
     # data transform under a variant (the statement leaves the representation open; keys must still be complete)
@@ -473,6 +479,8 @@ EVENTS = (
     ("blk", "http_get", "HttpGetBlock", {"uri": "/a"}), ("blk", "stage", "StageBlock", {"cleanup": "true"}),
     ("blk", "http_get", "HttpGetBlock", {"verb": "POST"}), ("blk", "dns_beacon", "DnsBeaconBlock", {"maxdns": "255"}),
     ("read", "as_dict"), ("read", "properties"), ("read", "as_text"), ("read", "missing"),
+    # modifications that add no string token at all: an execute list and a data transform of argument-less steps
+    ("raw", "execute"), ("raw", "transform"),
 )
 BLK_KW = {"http_get": "http-get", "stage": "stage", "dns_beacon": "dns-beacon"}
 
@@ -482,6 +490,11 @@ def apply_event(cp, prof, ev):
         prof.set_option(ev[1], ev[2])
     elif ev[0] == "blk":
         prof.set_config_block(ev[1], getattr(cp, ev[2])(**ev[3]))
+    elif ev[0] == "raw":
+        if ev[1] == "execute":
+            prof.set_config_block("process_inject", cp.ProcessInjectBlock(execute=cp.ExecuteOptionsBlock(createthread=True, rtlcreateuserthread=True)))
+        else:
+            prof.set_config_block("http_post", cp.HttpPostBlock(client=cp.HttpOptionsBlock(output=cp.DataTransformBlock(steps=["base64", "mask", "print"]))))
     elif ev[1] == "missing":
         # a caller that subscripts the view with paths the profile does not state: that is a KeyError every time and
         # leaves no trace in the view
@@ -507,6 +520,13 @@ def reference_sentence(cp, hist):
     for ev in hist:
         if ev[0] == "opt":
             sent.append(("s", "option", ("set", ev[1]), (cp.value_to_string(ev[2]),)))
+        elif ev[0] == "raw" and ev[1] == "execute":
+            ex = {f[1]: f for f in RP.PRODUCTIONS["execute"]}
+            body = [mk(ex["createthread"]), mk(ex["rtlcreateuserthread"])]
+            sent.append(("b", "process_inject", "process-inject", None, "process_inject", [("b", "execute", "execute", None, "execute", body)]))
+        elif ev[0] == "raw":
+            g = ([mk(RP.TRANSFORM_STEPS[1]), mk(RP.TRANSFORM_STEPS[3])], mk(RP.TERMINATIONS[2]))
+            sent.append(("b", "http_post", "http-post", None, "http_post", [("b", "client", "client", None, "http_client", [("dt", "output", "output", [g])])]))
         elif ev[0] == "blk":
             kind = {"http_get": "http_get", "stage": "stage", "dns_beacon": "dns_beacon"}[ev[1]]
             body = [("s", k, ("set", k), (cp.value_to_string(v),)) for k, v in ev[3].items()]
@@ -561,8 +581,11 @@ def chunk_hist(chunk, acc):
     depth = BOUNDS[acc.tier]["hist_depth"]
     first = EVENTS[chunk["first"]]
     for rest in sequences(EVENTS, depth - 1):
+        hist = (first,) + rest
+        if len(hist) == depth and any(e[0] == "raw" for e in hist):
+            continue  # the two token-less modifications are explored one event shorter than the rest
         acc.states += 1
-        run_history(acc, cp, (first,) + rest)
+        run_history(acc, cp, hist)
     if chunk["first"] == 0:
         run_history(acc, cp, ())
     acc.sample({"history": [list(first[:3]), ["read", "as_dict"], ["opt", "jitter", "10"], ["read", "properties"]], "invariant": "as_dict() == as_dict(parse(reference rendering))"})
